@@ -1,6 +1,6 @@
 """C06 — race: the first child seen to resolve wins, immediately; the rest are cancelled."""
 from .. import families, scan
-from . import racelike, flow, common, c20, c02, prims, joinlike
+from . import racelike, flow, common, c20, c02, c03, prims, joinlike
 
 PROPERTY = "C06"
 LEVEL = "other"
@@ -20,6 +20,7 @@ ASSUMPTIONS = [
 ]
 RULES = {
     "C06.WIN": "Ready edge => same-call return of that payload, done := true, no further poll; Ready returns only carry polled payloads; Pending only after the full scan",
+    "C06.DONE": "the `done` guard is evaluated before any child is polled, and is set when a child wins: the losers are never polled again",
     "C06.SCAN": "Pending child => scan continues; scan covers all children; Indexer rotation",
     "C06.OWN": "children owned by value by the race future (no Rc/Arc/raw pointer/leak)",
     "C06.EXT": "FutureExt::race(self, other) = Race::race((self, other))",
@@ -40,6 +41,9 @@ def run(ctx):
                       path=common.fmt_blocks(u.bi, [r[0] for r in loose]))
             racelike.rule_pending_after_scan(ctx, M, u, "C06.WIN")
             flow.rule_integrity(ctx, u.bi, "C06.WIN", u.where, ("Ready",), "the winner's output")
+            with ctx.renamed({"C03.LATCH": "C06.DONE", "C03.MARK": "C06.DONE"}):
+                c03.rule_latch(ctx, u)
+                c03.rule_mark(ctx, u)
             with ctx.renamed({"C20.CONT": "C06.SCAN", "C20.COVER": "C06.SCAN"}):
                 c20.rule_cont(ctx, M, u)
                 c20.rule_cover(ctx, M, u)
